@@ -72,7 +72,7 @@ Cov1Fails(ev) ==
     IF matched = {} THEN (IF ev.res # <<>> THEN {"coverage_of_nothing"} ELSE {})
     ELSE IF ev.res # want THEN {"coverage_counts"} ELSE {}
 
-(* op = "pct": get_matched_intensity_percentage(matches, intensities); peaks have pairwise distinct m/z *)
+(* op = "pct": get_matched_intensity_percentage(matches of mode all, intensities) *)
 PctFails(ev) ==
     LET total == FoldInts([ p \in 1..Len(ev.peaks) |-> ev.peaks[p].inten ])
         matched == { p \in 1..Len(ev.peaks) : \E f \in 1..Len(ev.frags) :
@@ -95,7 +95,8 @@ CovFails(ev) ==
 NearEdge(t, o, tol) == \/ FWithin(o, FSub(t, tol), Nano(2)) \/ FWithin(o, FAdd(t, tol), Nano(2))
 FixWindow(t, obs, tol) == { j \in 0..(Len(obs) - 1) : FLeq(FSub(t, tol), obs[j + 1]) /\ FLeq(obs[j + 1], FAdd(t, tol)) }
 FixFails(ev) ==
-    IF \E q \in 1..Len(ev.theo), j \in 1..Len(ev.obs) : NearEdge(ev.theo[q], ev.obs[j], ev.ftol) THEN {}
+    (* a tolerance of exactly 0 is decided exactly (t - 0 = t in floating point too): only equal values match *)
+    IF ev.ftol # FZero /\ \E q \in 1..Len(ev.theo), j \in 1..Len(ev.obs) : NearEdge(ev.theo[q], ev.obs[j], ev.ftol) THEN {}
     ELSE UNION { LET W == FixWindow(ev.theo[q], ev.obs, ev.ftol) IN
                  (IF SeqToSet(ev.res[q]) # W THEN {"offgrid_window"} ELSE {}) : q \in 1..Len(ev.theo) }
 
@@ -109,7 +110,17 @@ Fails(ev) == IF ev.out # "ret" THEN {"raised_" \o ev.out}
                     [] ev.op = "cov" -> CovFails(ev)
                     [] ev.op = "fix" -> FixFails(ev)
                     [] OTHER -> {"unknown_op"}
-Dev(ev) == ""
+(* C17_TwinPeaksCountedOnce: the fraction groups the matches by observed m/z VALUE, so of several observed peaks   *)
+(* with one and the same m/z only one is counted - the one that comes last in the caller's peak list.              *)
+Dev_C17_TwinPeaksCountedOnce(ev) ==
+    /\ ev.op = "pct" /\ ev.out = "ret"
+    /\ LET total == FoldInts([ p \in 1..Len(ev.peaks) |-> ev.peaks[p].inten ])
+           matched == { p \in 1..Len(ev.peaks) : \E f \in 1..Len(ev.frags) : InWindow(ev, f, p) }
+           lastTwin == { p \in matched : \A q \in matched : ev.peaks[q].m8 = ev.peaks[p].m8 => q <= p }
+           msum == FoldInts(LET s == SetToSeqLocal(lastTwin) IN [ q \in 1..Len(s) |-> ev.peaks[s[q]].inten ]) IN
+       /\ lastTwin # matched
+       /\ total > 0 /\ FWithin(FMulInt(ev.res, total), FInt(msum), Nano(total + 1))
+Dev(ev) == IF "C17_TwinPeaksCountedOnce" \in Devs /\ Dev_C17_TwinPeaksCountedOnce(ev) THEN "C17_TwinPeaksCountedOnce" ELSE ""
 Init == l = 1 /\ ResetCounters
 Next == /\ l <= NEvents
         /\ LET f == Fails(Events[l]) IN Record(Events[l], MkVerdict(f, IF f = {} THEN "" ELSE Dev(Events[l])))
